@@ -197,6 +197,11 @@ def build_cont(cc):
             L = l0 + l1 * th
             x = adev.mv_normal_reparam(m0 + m1 * th, L @ L.T)
             return a * x + c * th
+        if fam == "mv_diag_batched":           # loc, scale_diag of shape (2, 2); output flattened row-major
+            L = l0 + l1 * th
+            mu = m0 + m1 * th
+            x = adev.mv_normal_diag_reparam(jnp.stack([mu, mu]), jnp.stack([jnp.diag(L), jnp.diag(L)]))
+            return (a * x + c * th).reshape(-1)
         if fam == "uniform":
             return a[0] * adev.uniform() + c[0] * th
         if fam == "two_normal_reparam":        # two consecutive tail-call sites
@@ -424,7 +429,7 @@ def run(prop_id, tier, seed, replay=None):
                              eager=bool(c["core"]) and (not quick or c["core"] % 3 == 1), hb=0))
         nindep = 512 if quick else 4096
         for j, cc in enumerate(g.payloads("CCASE")):
-            two = cc["fam"] in ("two_normal_reparam", "uniform_normal_reparam")
+            two = cc["fam"] in ("two_normal_reparam", "uniform_normal_reparam", "mv_diag_batched")
             jobs.append(dict(id=f"K{j}", cc=cc, seed=(seed * 1000003 + 7919 + j) % (2 ** 31),
                              nkeys=nindep if two else (8 if quick else 64), hb=0, two=two))
         cells = 16 * 4 * max(1, len(jobs))
